@@ -1,28 +1,237 @@
-// Package c13 decides property C13 (see /verif/DESIGN.md §5).
+// Package c13 decides property C13 (see /verif/DESIGN.md §5): the line cache
+// comp.LRUCache and the generic cache.LRUCache behave as LRU caches of a small
+// executable reference model.
+//
+// One run index = one history. A seeded client drives the REAL cache side by
+// side with the reference and compares after every operation. Everything a run
+// does derives from rng.New(rng.Derive(seed, index)).
 package c13
 
 import (
 	"encoding/json"
+	"fmt"
 
 	"verifsim/internal/api"
+	"verifsim/internal/findings"
+	"verifsim/internal/rng"
 )
 
-type check struct{}
+type check struct {
+	mkLine lineFactory
+	mkKV   kvFactory
+}
 
 // New returns the C13 check.
-func New() api.Check { return check{} }
+func New() api.Check { return check{mkLine: newRealLine, mkKV: newRealKV} }
 
 func (check) ID() string { return "C13" }
 
 func (check) Runs(tier string) int {
 	if tier == "thorough" {
-		return 100000
+		return 5000000
 	}
-	return 1000
+	return 50000
 }
 
-func (check) Run(b api.Batch) *api.Result { return api.NewResult() }
+// isKV: every eighth run index drives cache.LRUCache, the others comp.LRUCache.
+func isKV(i int) bool { return i%8 == 7 }
 
-func (check) Replay(payload json.RawMessage) (*api.Violation, error) { return nil, nil }
+// knownFindingSampled bounds the number of TAGGED violations written into a
+// Result (the driver keeps at most 200 violations per run; the tagged ones
+// must not crowd out fresh ones). Every hit is still counted in
+// known_finding_hits:<id>. The rule depends on the run index only.
+func knownFindingSampled(i int) bool { return i < 4096 && i%32 == 0 }
 
-func (check) Describe() api.Description { return api.Description{Level: "exploration"} }
+const maxUntaggedPerClassPerBatch = 3
+
+func (c check) runner() runner {
+	return func(h *History) []fail {
+		var st stats
+		if h.Kind == "kv" {
+			return runKV(h, c.mkKV, &st)
+		}
+		return runLine(h, c.mkLine, &st)
+	}
+}
+
+func (c check) Run(b api.Batch) *api.Result {
+	res := api.NewResult()
+	kf := findings.Default()
+	open := map[string]bool{}
+	for _, id := range []string{sigKF1, sigKF2, sigKF3} {
+		open[id] = kf.IsOpen("C13", id)
+	}
+	var st stats
+	emitted := map[string]int{}
+	for i := b.From; i < b.To; i++ {
+		r := rng.New(rng.Derive(b.Seed, uint64(i)))
+		var h *History
+		var fails []fail
+		nonTrivial := false
+		before := st.executed
+		if isKV(i) {
+			var x *kvExec
+			h, x, fails = genKV(r, c.mkKV, &st)
+			res.Count("histories_kv", 1)
+			res.Count(fmt.Sprintf("histories_kv_capacity_%d", h.Capacity), 1)
+			nonTrivial = x != nil && x.nonTrivial()
+		} else {
+			var x *lineExec
+			h, x, fails = genLine(r, c.mkLine, &st)
+			res.Count(fmt.Sprintf("histories_line_%dB_%dB", h.LineLen, h.CacheLen), 1)
+			res.Count("histories_mode_"+h.Mode, 1)
+			if x != nil {
+				nonTrivial = x.nonTrivial()
+				refW, refNW, any := true, true, false
+				for cv := 0; cv < numConv; cv++ {
+					if x.alive[cv] {
+						if cv&convWrite != 0 {
+							refW = false
+						} else {
+							refNW = false
+						}
+					} else {
+						any = true
+					}
+				}
+				if any {
+					res.Count("histories_refuting_some_recency_convention", 1)
+				}
+				if refW {
+					res.Count("write_touch_convention_refuted", 1)
+				}
+				if refNW {
+					res.Count("write_notouch_convention_refuted", 1)
+				}
+				if x.evictions > 0 {
+					res.Count("histories_with_capacity_eviction", 1)
+				}
+			}
+		}
+		res.Evaluations++
+		res.SimCycles += st.executed - before
+		if nonTrivial {
+			res.Count("histories_nontrivial", 1)
+			res.Seen(h.hash())
+		}
+		if i == 0 || i == 1 || i == 7 {
+			res.AddSample(map[string]any{"run_index": i, "history": h, "rendered": h.trace(-1), "violations": len(fails)}, 3)
+		}
+		for _, f := range fails {
+			res.Count("violations_class:"+f.class, 1)
+			tag := ""
+			if f.sig != "" && open[f.sig] {
+				tag = f.sig
+				res.Count("known_finding_hits:"+tag, 1)
+				if !knownFindingSampled(i) {
+					continue
+				}
+			} else {
+				if emitted[f.class] >= maxUntaggedPerClassPerBatch {
+					res.Count("violations_not_written_out", 1)
+					continue
+				}
+				emitted[f.class]++
+			}
+			res.Violations = append(res.Violations, c.violation(h, f, tag, i, b.Seed))
+		}
+	}
+	for k := Kind(1); k < numKinds; k++ {
+		if st.ops[k] > 0 {
+			res.Count("ops_"+k.String(), st.ops[k])
+		}
+	}
+	res.Count("ops_executed", st.executed)
+	res.Count("ops_skipped_inapplicable", st.skipped)
+	res.Count("fault_capacity_evictions_fired", st.capEvictions)
+	res.Count("fault_invalidations_fired", st.invalidations)
+	res.Count("victim_removals_by_caller", st.victimRemovals)
+	res.Count("hits", st.hits)
+	res.Count("misses", st.misses)
+	res.Count("hits_after_write", st.hitAfterWrite)
+	res.Count("getcacheline_hits", st.lineHits)
+	res.Count("getsubcacheline_hits", st.subHits)
+	res.Count("duplicate_victim_reports", st.dupVictims)
+	res.Count("get_on_pending_victim", st.condemnedTouch)
+	return res
+}
+
+// violation shrinks the history of f and builds the api.Violation.
+func (c check) violation(h *History, f fail, tag string, i int, seed uint64) api.Violation {
+	min, mf := shrink(h, f.class, f.sig, c.runner())
+	min.ExpectClass = f.class
+	min.ExpectSig = f.sig
+	payload, _ := json.Marshal(min)
+	detail := mf.detail + " || minimal history (" + fmt.Sprint(len(min.Ops)) + " ops): " + min.trace(-1)
+	return api.Violation{Property: "C13", Class: f.class, Detail: detail, RunIndex: i, Seed: seed, Replay: payload, KnownFinding: tag}
+}
+
+func (c check) Replay(payload json.RawMessage) (*api.Violation, error) {
+	var h History
+	if err := json.Unmarshal(payload, &h); err != nil {
+		return nil, err
+	}
+	if h.Kind != "line" && h.Kind != "kv" {
+		return nil, fmt.Errorf("unknown history kind %q", h.Kind)
+	}
+	fails := c.runner()(&h)
+	if len(fails) == 0 {
+		return nil, nil
+	}
+	f := fails[0]
+	if h.ExpectClass != "" {
+		if t, ok := hasTarget(fails, h.ExpectClass, h.ExpectSig); ok {
+			f = t
+		} else {
+			for _, t := range fails {
+				if t.class == h.ExpectClass {
+					f = t
+					break
+				}
+			}
+		}
+	}
+	if f.class == "bad-history" {
+		return nil, fmt.Errorf("bad history: %s", f.detail)
+	}
+	tag := ""
+	if f.sig != "" && findings.Default().IsOpen("C13", f.sig) {
+		tag = f.sig
+	}
+	return &api.Violation{Property: "C13", Class: f.class, Detail: f.detail + " || history: " + h.trace(-1), Replay: payload, KnownFinding: tag}, nil
+}
+
+func (check) Describe() api.Description {
+	return api.Description{
+		Level: "exploration",
+		Rule: "one evaluation = one seeded history (fill phase up to capacity, then 10..60 random operations over at most capacity+3 distinct aligned lines / keys) executed on the real cache and on the reference, compared after every operation. " +
+			"A history is non-trivial iff at least one capacity eviction fired AND at least one read hit a byte (key) that had been written (put) since its line was inserted; distinct = distinct FNV-1a hash of (geometry, mode, full operation sequence with arguments) over the non-trivial histories. " +
+			"Run indices with i%8==7 drive cache.LRUCache, the others comp.LRUCache with geometries 16B/64B, 64B/256B, 64B/1KB, 128B/4KB (weights 35/30/20/15), half with PushLine, half with PushLineWithEvictionWarning (35% of those with delayed victim removal, 35% of the delayed ones with overlapping insertions).",
+		Real: []string{
+			"github.com/teivah/majorana/proc/comp.LRUCache (NewLRUCache, Get, GetCacheLine, GetSubCacheLine, EvictCacheLine, Write, PushLine, PushLineWithEvictionWarning, ExistingLines, Lines)",
+			"github.com/teivah/majorana/common/cache.LRUCache[int,int] (NewLRUCache, Get, Find, Put)",
+		},
+		Stub: []string{
+			"the units around the caches (memory management unit, cache controller, MSI directory, control unit) are replaced by one seeded client that issues their calls, including the caller half of the eviction-warning protocol (EvictCacheLine of the reported victim, immediately or a few operations later)",
+			"reference model: ordered list of resident lines + their bytes (eight recency orders, one per convention), ordered key/value list for cache.LRUCache",
+		},
+		Assumptions: []string{
+			"Line bases are multiples of the line length and lines do not overlap (the statement's 'a resident line covers it'); a line that is resident is never inserted again (every caller checks Get/GetCacheLine first: mvp7-0/cc.go:246, mvp8-0/cc.go:417,428; the MMU variants insert on a miss).",
+			"Write(addr,data) stays inside one resident line (callers write the bytes of one access, or one L1 line into the L3 line that contains it); writes to an absent line (the code panics by design) and writes running past the line end are not generated.",
+			"Recency: Get and insertion are uses. Whether Write, GetCacheLine, GetSubCacheLine are uses is not stated: 8 conventions are tracked, a victim refutes the conventions it contradicts, only a history refuting all 8 is an lru-order violation. The order of Lines() is not compared, only its set and bytes.",
+			"PushLine has no victim identity in its result: the displaced line is the resident line that disappeared; its contents must be what PushLine returned.",
+			"PushLineWithEvictionWarning keeps the reported victim resident (Get/GetCacheLine/Write still reach it: the snoop write-back needs GetCacheLine of it) until the caller's EvictCacheLine(victim.Boundary[0]); whenever no reported victim is outstanding the resident count must be <= capacity. With a victim outstanding, a further insertion may report the LRU of all resident lines or the LRU of the lines not yet reported (both readings accepted); if fewer than capacity lines are not being evicted, reporting nothing is accepted too. Overlapping insertions are legal for the callers: mvp8-0 shares one L3 between cache controllers and removes L3 victims asynchronously through the snoop coroutine.",
+			"ExistingLines()/GetSubCacheLine may or may not show a line that is a reported, not yet removed victim (don't care); they must show every other resident line and nothing else.",
+			"EvictCacheLine of an arbitrary resident line models invalidation by another core; of an absent line it must report false.",
+			"cache.LRUCache contract as read from lru.go, lru_test.go and cu.go:290: capacity >= 1; Put of a new key into a full cache drops the least recently used key; Put (new or existing key), Get hit and Find hit refresh recency; Find(keys) returns the least recently used key among the held keys that occur in keys (false if none) and refreshes exactly that key; keys not held are ignored. There is no observer without side effect, so the state is observed by op results and by a final sweep (len x Find(all keys) lists the order, then Get of every key).",
+			"Known-finding handling: a violation matching the exact signature of KF-C13-1 or KF-C13-3 does not change cache state, the history continues (each signature is reported once per history) and any later different violation is reported; after KF-C13-2 the cache is one line over capacity for good and the history stops there. While a duplicate victim report is outstanding the ExistingLines/GetSubCacheLine visibility checks are suspended (the resident-count clause decides).",
+		},
+		FaultKinds: []string{
+			"capacity eviction (insertion into a full cache, PushLine and PushLineWithEvictionWarning)",
+			"invalidation: EvictCacheLine of an arbitrary resident line (another core's snoop evict / write-back), including a line that is a pending victim",
+			"delayed victim removal: operations (Get/Write/GetCacheLine/GetSubCacheLine, also on the victim) between the eviction warning and the caller's EvictCacheLine",
+			"overlapping insertions while a reported victim is still resident (shared L3 in mvp8-0)",
+			"EvictCacheLine of a line that is not resident",
+		},
+	}
+}
